@@ -10,7 +10,7 @@ from ..law import Law, Violation, Skip
 from ..values import dec, enc, err, CODES8
 
 RULE = 'C11: non-empty lists of 1-40 integers / dyadic / decimal numbers partitioned into scalar, array and nested-array arguments and permuted; criteria of the three documented forms over equal-length ranges'
-ASSUMPTIONS = ['definitions evaluated in exact Fraction arithmetic on the doubles\' exact values; compared exactly when the result is an integer or dyadic rational that Python computes exactly, else at 1e-9 relative',
+ASSUMPTIONS = ['definitions evaluated in exact Fraction arithmetic on the doubles\' exact values; compared exactly when the result is an integer or dyadic rational that Python computes exactly, else within 1e-9 of the result plus 1e-12 of the magnitude of the data (squared for variances)',
                'MODE: any value of maximal multiplicity is accepted',
                'SUMIF/COUNTIF in the two-argument form the test-suite pins (the items are their own criteria cells); AVERAGEIF in both forms; *IFS with flat ranges',
                'operator criteria are applied to numeric cells, wildcard/bare-text criteria to lower-case text cells (case rules are not stated)',
@@ -59,8 +59,9 @@ def r_slope(ys, xs):
     return sum((fr(x) - mx) * (fr(y) - my) for x, y in zip(xs, ys)) / den
 
 
-def close(g, want, rel=1e-9):
-    """g: number returned; want: Fraction or float"""
+def close(g, want, rel=1e-9, scale=1.0):
+    """g: number returned; want: Fraction or float.  Exact agreement, or within rel of the result plus 1e-12 of the
+    magnitude `scale` of the data (floating-point sums of large items cannot do better than an ulp of the items)"""
     if isinstance(g, bool) or not isinstance(g, (int, float)) or (isinstance(g, float) and not math.isfinite(g)):
         return False
     if isinstance(want, Fraction):
@@ -69,7 +70,7 @@ def close(g, want, rel=1e-9):
         w = float(want)
     else:
         w = want
-    return abs(g - w) <= rel * max(abs(g), abs(w)) + 1e-12 * (1.0 if max(abs(g), abs(w)) >= 1e-3 else max(abs(g), abs(w)) * 1e3)
+    return abs(g - w) <= rel * max(abs(g), abs(w)) + 1e-12 * scale
 
 
 # ---------------------------------------------------------------- generators
@@ -202,16 +203,18 @@ def check_stats(case):
             continue        # sample forms of a single item / means of non-positive items: not defined by the statement
         if name == 'PRODUCT' and (abs(want) > F(10) ** 300 or (want != 0 and abs(want) < F(1, 10 ** 300))) and any(isinstance(x, float) for x in items):
             continue        # the product itself is outside the double range
+        mag = max(abs(x) for x in items) or 1.0
+        scale = mag * mag if name.startswith('VAR') else (0.0 if name in ('PRODUCT', 'COUNT') else mag)
         for r, dd in ((r1, d), (r2, '%s over the permuted/regrouped %r' % (name, case['perm_args']))):
             g = r['result']
-            if r['error'] is not None or not close(g, want):
+            if r['error'] is not None or not close(g, want, scale=scale):
                 raise Violation('%s -> %r, definition gives %r' % (dd, r['error'] or g, float(want)), r['error'] or enc(g), float(want))
     # LARGE: k-th of sorted-descending, over one (possibly nested) array
     k = case['k']
     kw = {'vars': {'v_arr': dec(case['args']), 'v_k': k}}
     want = sorted(map(fr, items), reverse=True)[k - 1]
     r = Env(**kw).parse('LARGE(v_arr,v_k)')
-    if r['error'] is not None or not close(r['result'], want):
+    if r['error'] is not None or not close(r['result'], want, scale=0.0):
         raise Violation('LARGE(%r, %d) -> %r, expected %r' % (case['args'], k, r['error'] or r['result'], float(want)), r['error'] or enc(r['result']), float(want))
     kw = {'vars': {'v_arr': dec(list(items)), 'v_k': k}}
     r = Env(**kw).parse('LARGE(v_arr,%d)' % k)
